@@ -115,8 +115,16 @@ def rewriteHyps (pS qS : Sexp) (script : List Sexp) : Sexp :=
        (if naming && (Spec.hasRefUnderSharedKey p || Spec.hasRefUnderSharedKey q) then [Sexp.atom "NoNamedSharedKeyInIntersection"] else [])))
   | _, _ => .list [.atom "hyp-failed"]
 
+/-- custom formats are outside the compiler model -/
+partial def mentionsFormat : Sexp → Bool
+  | .list (.atom "bi" :: .str n :: rest) =>
+    ["StringFormat", "StringFormatExtends", "NumberFormat", "NumberFormatExtends"].contains n || rest.any mentionsFormat
+  | .list xs => xs.any mentionsFormat
+  | _ => false
+
 /-- `(describe id prog files values)`: the text `describe()` prints for the single export -/
 def describeOp (progS : Sexp) : Sexp :=
+  if mentionsFormat progS then .atom "untied" else
   match decProg progS with
   | some p =>
     match compile p with
